@@ -73,7 +73,7 @@ def explicit_values(seed):
     """Values that are always operands, whatever the health probe of the pool builder says (the probe itself
     uses + and copy, so a defect there must not be able to empty the operand set)."""
     R = explore.roles(seed)
-    hs = [[['plain', 'ab']], [['rainbow', 'abc']], [['ctor', 'ab', R['R']]],
+    hs = [[['plain', 'ab']], [['rainbow', 'abc']], [['ctor', 'ab', R['R']]], [['plain', '']], [['ctor', '', R['R']]],
           [['plain', 'abc'], ['apply', R['R'], 0, 2, True], ['apply', R['W'], 1, 3, True]],
           [['plain', 'abcd'], ['apply', R['R'], 1, 3, True]],
           [['plain', 'abcd'], ['apply', R['R'], 0, 4, True], ['apply', R['R'], 1, 2, True]],
